@@ -468,6 +468,24 @@ theorem C11_fn_kvv_passthrough {S F Mutations SignerId : Type} (st : S × F) (e 
     Gen.FnKvvPass.KVVPersister.clear_database cl st = cl st.1 ∧ Gen.FnKvvPass.KVVPersister.prepare pr st = pr st.1 ∧
     Gen.FnKvvPass.KVVPersister.signer_id sid st = sid st.1 := ⟨rfl, rfl, rfl, rfl, rfl⟩
 
+
+/-- **C11_fn_kvv_new_node**: `new_node` first writes the node *state* (`update_node`; an error of that write is a panic:
+    `.unwrap()`), then the node entry (key derivation style, network name) under the key `get_nodes` lists — so a node
+    entry that a restart finds always has its state entry already in the store (the order `get_nodes` relies on:
+    "state not found" cannot come from a crash between the two writes). -/
+theorem C11_fn_kvv_new_node {PS KDS Network : Type} (conv : NodeState → NodeStateEntry PS) (ser : NodeStateEntry PS → Rs.M (List Nat))
+    (kds : KDS → Nat) (nts : Network → String) (serE : NodeEntry → Rs.M (List Nat)) (cfg : NodeConfig KDS Network) (st : NodeState) :
+    KVVPersister.new_node sz mk conv ser put kds nts serE self node_id cfg st
+      = (Rs.unwrapOk (KVVPersister.update_node sz mk conv ser put self node_id st) >>= fun _ =>
+          serE { key_derivation_style := kds cfg.key_derivation_style, network := nts cfg.network } >>= fun v =>
+          put (mk "node/entry" (sz node_id)) v) ∧
+    (∀ tag, KVVPersister.update_node sz mk conv ser put self node_id st = .error (.err tag) →
+      KVVPersister.new_node sz mk conv ser put kds nts serE self node_id cfg st = .error .panic) := by
+  refine ⟨rfl, ?_⟩
+  intro tag h
+  unfold KVVPersister.new_node
+  rw [h]; rfl
+
 /-- non-vacuity of the round trip: identity format, a store that holds the one entry -/
 example : KVVPersister.get_channel (SelfT := Unit) (PublicKey := Nat) (ChannelId := Nat) (EnforcementState := Nat)
     (fun n => [n]) (fun c => [c]) (fun p a b => p ++ toString a ++ toString b)
